@@ -656,7 +656,7 @@ func (c *Ctx) c02InternalNeverPartial() {
 		return
 	}
 	lk := lookups[0]
-	pos := o.AcceptEdges(errNilOf(lk, "a mint quote with the same payment hash exists"))
+	pos := o.TestEdges(errNilOf(lk, "a mint quote with the same payment hash exists"))
 	if len(pos) == 0 {
 		R.Check("R7", fk, "internal invoice => not partial", c.P.InstrPos(lk), false, "an invoice of the mint's own mint quote is never accepted as a partial payment", "the result of the mint-quote look-up is not tested")
 		return
